@@ -56,6 +56,7 @@ const KNOWN_RULES: &[&str] = &[
     "try_desugar",
     "parse_lit",
     "map_field",
+    "cut_chain",
 ];
 
 pub fn apply(repo: &str, req: &ItemReq, f: &mut FnUnderEdit) -> Result<(), String> {
@@ -68,7 +69,7 @@ pub fn apply(repo: &str, req: &ItemReq, f: &mut FnUnderEdit) -> Result<(), Strin
 
     // R2 attrs (function level is always dropped: contracts replace them)
     if has("attrs") {
-        let mut v = StripAttrs { n: 0 };
+        let mut v = StripAttrs { n: 0, off: req.off_features.clone() };
         v.visit_block_mut(&mut f.block);
         for a in f.sig.inputs.iter_mut() {
             if let syn::FnArg::Typed(t) = a {
@@ -222,6 +223,15 @@ pub fn apply(repo: &str, req: &ItemReq, f: &mut FnUnderEdit) -> Result<(), Strin
         f.fire("as_deref", n);
     }
 
+    // R17b cut a request-builder chain after `.M(..)`: the rest (sending, status check, JSON decoding) becomes one stub
+    if has("cut_chain") {
+        let m = req.cut_method.clone().ok_or("rule cut_chain needs cut_method")?;
+        let mut v = CutChain { method: m, n: 0 };
+        v.visit_block_mut(&mut f.block);
+        let n = v.n;
+        f.fire("cut_chain", n);
+    }
+
     // R24 `e?` -> match e { Ok(v) => v, Err(e) => return Err(From::from(e)) }
     if has("try_desugar") {
         let mut v = TryDesugar { n: 0 };
@@ -327,7 +337,7 @@ pub fn apply_item(
                         syn::ImplItem::Fn(m) => {
                             n += m.attrs.len();
                             m.attrs.clear();
-                            let mut v = StripAttrs { n: 0 };
+                            let mut v = StripAttrs { n: 0, off: req.off_features.clone() };
                             v.visit_block_mut(&mut m.block);
                             n += v.n;
                         }
@@ -418,8 +428,25 @@ impl VisitMut for DeAsync {
 // ---------------------------------------------------------------- R2
 struct StripAttrs {
     n: usize,
+    off: Vec<String>,
+}
+fn gated_off(attrs: &[syn::Attribute], off: &[String]) -> bool {
+    attrs.iter().any(|a| {
+        let t = norm(a);
+        off.iter().any(|f| t == format!("#[cfg(feature=\"{f}\")]"))
+    })
 }
 impl VisitMut for StripAttrs {
+    fn visit_block_mut(&mut self, b: &mut syn::Block) {
+        let before = b.stmts.len();
+        let off = self.off.clone();
+        b.stmts.retain(|s| match s {
+            syn::Stmt::Local(l) => !gated_off(&l.attrs, &off),
+            _ => true,
+        });
+        self.n += before - b.stmts.len();
+        visit_mut::visit_block_mut(self, b);
+    }
     fn visit_local_mut(&mut self, l: &mut syn::Local) {
         self.n += l.attrs.len();
         l.attrs.clear();
@@ -616,6 +643,48 @@ impl syn::parse::Parse for VecRepeat {
             return Err(input.error("trailing"));
         }
         Ok(VecRepeat { elem, len })
+    }
+}
+
+// ---------------------------------------------------------------- R17b
+struct CutChain {
+    method: String,
+    n: usize,
+}
+fn find_call<'a>(e: &'a syn::Expr, method: &str) -> Option<&'a syn::Expr> {
+    match e {
+        syn::Expr::MethodCall(m) => {
+            if m.method == method {
+                Some(e)
+            } else {
+                find_call(&m.receiver, method)
+            }
+        }
+        syn::Expr::Try(t) => find_call(&t.expr, method),
+        syn::Expr::Await(t) => find_call(&t.base, method),
+        syn::Expr::Paren(t) => find_call(&t.expr, method),
+        _ => None,
+    }
+}
+impl VisitMut for CutChain {
+    fn visit_local_mut(&mut self, l: &mut syn::Local) {
+        if let Some(init) = &mut l.init {
+            let is_try = matches!(&*init.expr, syn::Expr::Try(_));
+            if let Some(g) = find_call(&init.expr, &self.method) {
+                // only cut if there is something after the call
+                if !std::ptr::eq(g, &*init.expr) {
+                    let g = g.clone();
+                    *init.expr = if is_try {
+                        syn::parse_quote!(vx_rest_of_request(#g)?)
+                    } else {
+                        syn::parse_quote!(vx_rest_of_request(#g))
+                    };
+                    self.n += 1;
+                    return;
+                }
+            }
+        }
+        visit_mut::visit_local_mut(self, l);
     }
 }
 
